@@ -199,7 +199,7 @@ class HybridCache(_CacheBase):
         scores = {
             k: self.access_weight * normalized_access_counts[k]
             + self.duration_weight * normalized_durations[k]
-            for k in self._access_counts
+            for k in normalized_access_counts
         }
 
         # Find the key with the lowest score
